@@ -371,6 +371,11 @@ def _eager_position(root, target) -> bool:
                 if r is not None:
                     return r
             return None
+        if isinstance(n, (ast.ListComp, ast.SetComp, ast.DictComp)) and n.generators:
+            # the first iterable of a (non-generator) comprehension is evaluated once, at once
+            r = walk(n.generators[0].iter, eager)
+            if r is not None:
+                return r
         if isinstance(n, (ast.ListComp, ast.SetComp, ast.DictComp, ast.GeneratorExp, ast.Lambda)):
             for c in ast.iter_child_nodes(n):
                 r = walk(c, False)
